@@ -360,6 +360,38 @@ def check_eval_and_spider(ctx):
     shape.match(ctx, "R09.4", TEN + ".Spider.__init__:type", typ, "(dim ** n_legs_in, dim ** n_legs_out)", {}, mod=TEN, node=sp, sig="spider-type")
 
 
+def check_bubble_types(ctx):
+    """R09.7: a bubble is typed like its inside unless another type is given, in every layer (cat, monoidal, tensor); its tensor is the function applied to the inside's"""
+    m = ctx.model
+    CAT, MON = "discopy.cat", "discopy.monoidal"
+    fn = m.func(CAT + ".Bubble.__init__")
+    ctx.analysed(CAT + ".Bubble.__init__", MON + ".Bubble.__init__", TEN + ".Bubble.__init__", CAT + ".Arrow.bubble")
+    a = [x.arg for x in fn.args.args]
+    d = dict(zip(a[len(a) - len(fn.args.defaults):], fn.args.defaults))
+    ok = a[1:] == ["inside", "dom", "cod"] and all(isinstance(d.get(k), ast.Constant) and d[k].value is None for k in ("dom", "cod"))
+    ctx.ob("R09.7", CAT + ".Bubble.__init__:signature", ok, found=ast.unparse(fn.args), required="(inside, dom=None, cod=None)", mod=CAT, node=fn, sig="bubble-signature")
+    shape.match_stmts(ctx, "R09.7", CAT + ".Bubble.__init__:type", fn.body, ["dom = inside.dom if dom is None else dom", "cod = inside.cod if cod is None else cod", "self._inside = inside", "Box.__init__(self, 'Bubble', dom, cod)"],
+                      mod=CAT, node=fn, sig="bubble-type", required="the type of the inside by default, the given one otherwise; the inside kept")
+    ins = m.func(CAT + ".Bubble.inside")
+    shape.match(ctx, "R09.7", CAT + ".Bubble.inside", ret_expr(ins.body), "self._inside", {}, mod=CAT, node=ins, sig="bubble-inside")
+    fn = m.func(MON + ".Bubble.__init__")
+    a = [x.arg for x in fn.args.args]
+    d = dict(zip(a[len(a) - len(fn.args.defaults):], fn.args.defaults))
+    ok = a[1:4] == ["inside", "dom", "cod"] and all(isinstance(d.get(k), ast.Constant) and d[k].value is None for k in ("dom", "cod"))
+    ctx.ob("R09.7", MON + ".Bubble.__init__:signature", ok, found=ast.unparse(fn.args), required="(inside, dom=None, cod=None, **params)", mod=MON, node=fn, sig="bubble-signature-monoidal")
+    shape.match_stmts(ctx, "R09.7", MON + ".Bubble.__init__:type", fn.body, ["cat.Bubble.__init__(self, inside, dom, cod)", "Box.__init__(self, self._name, self.dom, self.cod, data=self.data)"], mod=MON, node=fn,
+                      sig="bubble-type-monoidal", required="typed by cat.Bubble, then a monoidal box of that type")
+    fn = m.func(TEN + ".Bubble.__init__")
+    shape.match_stmts(ctx, "R09.7", TEN + ".Bubble.__init__", fn.body, ["self.func = func", "super().__init__(inside, **params)"], mod=TEN, node=fn, sig="bubble-tensor", required="the function kept, the type left to monoidal.Bubble")
+    fn = m.func(CAT + ".Arrow.bubble")
+    shape.match(ctx, "R09.7", CAT + ".Arrow.bubble", ret_expr(fn.body), "self.bubble_factory(self, **params)", {}, mod=CAT, node=fn, sig="arrow-bubble", required="the bubble around this very diagram, options passed on")
+    for mod, cls in ((CAT, "Arrow"), (MON, "Diagram"), ("discopy.rigid", "Diagram"), (TEN, "Diagram")):
+        c = m.cls("%s.%s" % (mod, cls))
+        late = c.late.get("bubble_factory")
+        ctx.ob("R09.7", "%s.%s.bubble_factory" % (mod, cls), late is not None and late[1] == "Bubble" and late[0] == mod, found=late, required="the Bubble class of the same module", mod=mod, node=c.node,
+               sig="bubble-factory-" + mod, trivial=True) if late is not None or mod != "discopy.rigid" else None
+
+
 def check_to_tn(ctx):
     """R09.6: evaluation through a contractor: the network built by to_tn has the wiring of the diagram and the result is typed like the diagram"""
     m = ctx.model
@@ -415,6 +447,8 @@ def check(ctx):
     n, flags = check_flag_discipline(ctx, TEN, "R09.3")
     ctx.notes.append("flag-daggered classes: %s" % sorted(k.q for k in flags))
     check_eval_and_spider(ctx)
+    ctx.rule("R09.7", "bubbles are typed like their inside unless told otherwise (cat, monoidal, tensor); .bubble() wraps the diagram itself with the module's own Bubble class")
+    check_bubble_types(ctx)
     ctx.rule("R09.6", "evaluation through a contractor: to_tn builds one identity node per input, one node per box wired at its offset, swaps exchange open wires; the result is typed by the diagram")
     check_to_tn(ctx)
     ctx.rule("R09.5", "the operations the evaluation is built from (then, tensor, dagger, swap, cups, caps of Tensor) have the matrix layout they claim (C08)")
